@@ -14,6 +14,8 @@ CHECKS = {
          "real-arithmetic reading of float64; values boxed to |v|<=64 where float constants occur (tolerance 1e-9); a reduced single density refusing a further conditioning call counts as a refusal, not as a violation"),
  'C07': ("for matrix-/sparse-/function-backed linear models with every listed geometry and for the Deconvolution1D (all PSFs, size parities, 5 BCs, legacy), Deconvolution2D (PSF 2x2..4x4, 5 BCs) and Abel1D models at small sizes: <Ax,y> = <x,A*y> for ALL x,y (bilinear SMT identity / 1e-9 over a box), get_matrix()@x = forward(x), T swaps forward/adjoint, T.T = A",
          "FFT convolution replaced by the validated direct-sum reference; dims <= 8 (1D) / 5x5 (2D)"),
+ 'C12': ("for matrix / callable-pair / Jacobian / gradient-callable models and every listed domain and range geometry: forward on a parameter vector, a CUQIarray in either representation, function values with is_par=False and Samples (2-3 columns) all equal range.fun2par(f(domain.par2fun(p))) for ALL p with the documented wrapping; gradient = J_F(p)^T direction (symbolic derivative incl. the geometry's own derivative) or refused exactly where it cannot be formed; model(dist) only renames the input",
+         "dims <= 4; oracle composed from the geometry's own maps (their correctness is C13)"),
  'C13': ("for every listed geometry, size, number of modes/steps and projection: fun2par(par2fun(p)) = p, projection idempotent, maps act column-wise on 2-3 column batches, reported shapes equal produced shapes, Samples/CUQIarray conversions agree with per-sample maps and round-trip, StepExpansion nodes partitioned and mapped to the documented step, KL expansion equals the documented sine series - all for ALL parameter vectors / function values",
          "dst/idst as validated linear-kernel stubs (tolerance 1e-9 over |p|<=64); StepExpansion grids from an enumerated concrete family (membership uses float comparisons that are not quantified over)"),
  'C19': ("every stored value a distinct symbol: burnthin(Nb,Nt) for ALL 0<=Nb<=Ns+1, 1<=Nt<=Ns+1 (Ns<=5/6, dims 1-3, 2-D function values, joint sets, chained calls) returns exactly columns b, b+t, ... with flags/geometry, refuses Nb>=Ns and leaves the source untouched; mean/variance/std/median/credible bounds equal the per-coordinate definitions for ALL values (lo<=median<=hi, width = hi-lo); statistics of function-value samples are those of the converted samples; arviz receives each variable's chain unpermuted",
